@@ -112,7 +112,7 @@ pub fn normalise(s: &Script) -> Option<Script> {
         }
         r.pair_mask &= (1u8 << s.pairs.len()) - 1;
         r.filler = r.filler.min(400);
-        r.store_spin = r.store_spin.min(200_000);
+        r.store_spin = r.store_spin.min(if r.retain_interval_ns.is_some() { 2000 } else { 200_000 });
     }
     // at most one faulting resource
     let mut seen = false;
@@ -184,7 +184,15 @@ pub fn script_from_tape(tape: &Tape, reps: u16) -> Script {
         let retain_interval_ns = [None, Some(0i64), Some(1_000_000)][r.weighted(&[2, 1, 1])];
         let load_retain = r.flag();
         let retain_init = [5i64, 0, 100][r.pick(3)];
-        let store_spin = [0u32, 300, 5000, 40_000][r.pick(4)];
+        // A slow store inside a periodic save runs inside the cycle, i.e. inside the shared
+        // lock: keep it short there (a resource with interval 0 that holds the unfair std Mutex
+        // for milliseconds starves the others for seconds on a slow machine). With no cadence the
+        // only store is the one in the stop path, outside any lock.
+        let store_spin = if retain_interval_ns.is_some() {
+            [0u32, 300, 300, 2000][r.pick(4)]
+        } else {
+            [0u32, 300, 5000, 40_000][r.pick(4)]
+        };
         let filler = [0u16, 5, 40, 200][r.pick(4)];
         let gated = match gate_mode {
             0 => {
